@@ -145,28 +145,40 @@ func init() {
 	}
 	// ---- C08
 	{
-		var clean, third []treeParams
+		var clean, big []treeParams
+		trig := map[int][]treeParams{}
 		for _, sh := range [][2]int{{1, 1}, {1, 2}, {2, 1}} {
 			for _, st := range []int{1, 2} {
-				for _, ex := range []int{0, 1, 2, 4} {
+				for _, ex := range []int{0, 4, 6, 7} {
 					clean = append(clean, treeParams{Depth: sh[0], Fan: sh[1], Stop: st, Extra: ex})
 				}
-				third = append(third, treeParams{Depth: sh[0], Fan: sh[1], Stop: st, Extra: 3})
+				for _, ex := range []int{1, 2, 3, 5} {
+					trig[ex] = append(trig[ex], treeParams{Depth: sh[0], Fan: sh[1], Stop: st, Extra: ex})
+				}
 			}
 		}
-		var big []treeParams
 		for _, sh := range [][2]int{{1, 3}, {2, 2}} {
-			for _, ex := range []int{0, 1, 2} {
+			for _, ex := range []int{0, 4, 6} {
 				big = append(big, treeParams{Depth: sh[0], Fan: sh[1], Stop: 1, Extra: ex})
 			}
 		}
 		Register(&Job{Name: "C08/engine/tree-shutdown", Prop: "C08", Bound: 1, BoundT: 2, Budget: 45, BudgetT: 900,
-			Desc: "tree shapes 1x1, 1x2, 2x1; root stopped by Poison or Stop while a leaf stops itself / crashes / Children() is queried: descendants stop and unregister first, Parent() correct, no nil child",
+			Desc: "tree shapes 1x1, 1x2, 2x1; root stopped by Poison or Stop; before that (quiescent) a leaf stops itself while Children() is queried, a leaf or the root crashes once and restarts: descendants stop and unregister first, Parent() correct, Children() = live children, no nil entry",
 			Make: func() vsched.Instance { return engTree(clean) }})
-		Register(&Job{Name: "C08/engine/tree-third-party-poison", Prop: "C08", Family: "trigger:D3", Bound: 1, BoundT: 2, Budget: 45, BudgetT: 900,
-			Desc: "a third party poisons a leaf while the root shuts down",
-			Make: func() vsched.Instance { return engTree(third) }})
 		Register(&Job{Name: "C08/engine/tree-shutdown-large", Prop: "C08", Tier: "thorough", Bound: 1, BoundT: 2, Budget: 45, BudgetT: 900,
 			Desc: "tree shapes 1x3, 2x2", Make: func() vsched.Instance { return engTree(big) }})
+		names := map[int][2]string{
+			1: {"child-self-stop-races-shutdown", "trigger:D22"}, 2: {"child-crash-races-shutdown", "trigger:D4"},
+			3: {"third-party-poison-races-shutdown", "trigger:D3"}, 5: {"child-max-restarts-races-shutdown", "trigger:D3"},
+		}
+		descs := map[int]string{
+			1: "a leaf poisons itself while the root shuts down", 2: "a leaf panics once on a message while the root shuts down (the message may sit behind the parent's pill)",
+			3: "a third party poisons a leaf while the root shuts down", 5: "a leaf exceeds max restarts while the root shuts down",
+		}
+		for _, ex := range []int{1, 2, 3, 5} {
+			v := trig[ex]
+			Register(&Job{Name: "C08/engine/" + names[ex][0], Prop: "C08", Family: names[ex][1], Bound: 1, BoundT: 2, Budget: 45, BudgetT: 600,
+				Desc: "tree shapes 1x1, 1x2, 2x1: " + descs[ex], Make: func() vsched.Instance { return engTree(v) }})
+		}
 	}
 }
